@@ -85,6 +85,13 @@ Theorem C18_ketama_order_independent : forall eps perm,
 Proof. exact ketama_answers_perm. Qed.
 Print Assumptions C18_ketama_order_independent.
 
+(* Tie T for a decision that random series never hit (a series hash equal to a
+   section hash): the comparison handed to sort.Search in ketamaHashring.GetN, read
+   from the source on this run, is "section hash >= v", as in the model's search_ge. *)
+Theorem C18_search_predicate_from_source : forall h v, ketama_search_pred h v = (v <=? h)%Z.
+Proof. exact search_pred_tie. Qed.
+Print Assumptions C18_search_predicate_from_source.
+
 (* Non-vacuity: a 2+2 zone ring with 2 sections per node, rf = 3. *)
 Example C18_nonvacuous :
   let eps := [(0, [5; 11]); (1, [3; 9]); (0, [7; 2]); (1, [8; 1])]%Z in
